@@ -1,13 +1,12 @@
 ------------------------------ MODULE OrderObs ------------------------------
 (* Conformance model of C06: the laws of Order.tla evaluated on the relation tables OBSERVED on the real   *)
-(* pg.eq / pg.ne / pg.lt / pg.gt / pg.hash / == / != / hash() / sorted() (T <- Obs in the cfg).            *)
-EXTENDS Order, Json, IOUtils
+(* pg.eq / pg.ne / pg.lt / pg.gt / pg.hash / == / != / hash() / sorted() (Mode = "observed" in the cfg).            *)
+EXTENDS Order
 
-Obs == JsonDeserialize(IOEnv.OBS_FILE)
 
 \* the observation was taken on exactly this universe
 ASSUME /\ Obs.n = N
        /\ \A f \in {"eq", "ne", "lt", "gt", "opeq", "opne"} : Len(Obs[f]) = N /\ \A a \in Ix : Len(Obs[f][a]) = N
-       /\ \A f \in {"hash", "hashok", "ophash", "ophashok"} : Len(Obs[f]) = N
+       /\ \A f \in {"hash", "hashok", "hashr", "hashrok", "ophash", "ophashok"} : Len(Obs[f]) = N
        /\ Len(Obs.sorts) > 0
 =============================================================================
